@@ -45,7 +45,8 @@ def run_case(ctx, case, hostile=None):
     # half of the histories steer clear of the trigger of the known finding so that long
     # histories survive; the other half keeps exercising it
     avoid = {"owned_node_outputs"} if case % 2 == 0 else set()
-    gen = Gen(rng, w, hostile, avoid=avoid)
+    # every fourth history also uses collaborator tensors whose own name setter can reject a name
+    gen = Gen(rng, w, hostile, avoid=avoid, collaborators=(case % 4 >= 2))
     mon = histories.WalkerMonitor()
     ops, results = [], []
     kinds = set()
